@@ -372,4 +372,12 @@ def cases():
           "cpu/laze.yml": [{"contexts": [{"name": "soc", "parent": "family"}, {"name": "family"}, {"name": "default", "rules": RULES, "env": {"bindir": "${build-dir}/${builder}/${app}"}}],
                             "modules": mods[:3]}]}
     out.append((f2, {}))
+    # 50: a module whose srcdir is an ABSOLUTE path, compiled by a non-shareable and by a shareable rule for two
+    #     builders and two apps: objects stay below <build-dir>/objects, the non-shareable ones below <builder>/<app>
+    mods = [{"name": "startup", "srcdir": "@ABSROOT@/ext/./boot", "sources": ["startup.S", "common.c"]},
+            {"name": "abs2", "srcdir": "/opt/vendor//sdk", "sources": ["sdk.S"]}]
+    f = base(mods, [{"name": "app", "sources": ["main.c"], "depends": ["startup"]}, {"name": "app2", "sources": ["main.c"], "depends": ["startup", "abs2"]}],
+             builders=[{"name": "b0", "env": {"ASFLAGS": "-b0"}}, {"name": "b1", "env": {"ASFLAGS": "-b1"}}])
+    f["laze-project.yml"][0]["contexts"][0]["rules"] = RULES + [{"name": "AS", "in": "S", "out": "o", "cmd": "as ${ASFLAGS} ${in} -o ${out}", "shareable": False}]
+    out.append((f, {}))
     return out
